@@ -472,3 +472,22 @@ PROPS["C08"] = {
     "outside": "the sending side and the chunk transfer (async-raft, tonic), leader election and log replication around the installation, a lagging follower whose old state must be discarded",
     "explanation": "bounded symbolic execution of the snapshot-installation receiver; emission-sequence oracle",
 }
+
+
+def _c20_smt(tier, seed):
+    from rs2smt import c20file
+    t0 = __import__("time").time()
+    ob = c20file.run(tier, seed)
+    if ob.get("verdict") == "violation":
+        from lib import native
+        path = native.write_replay("C20", "c20", "model", [], {"engine": "smt", "mode": "model-only", "obligation": ob["harness"], "message": ob["message"], "model": ob.get("counterexample")})
+        ob["replay_path"] = path
+        ob["replay"] = {"path": path, "outcome": "model-only", "message": "record lengths and file tail for FileMessageReader"}
+    return {"obligations": [ob], "info": {"files": c20file.FILES, "solver": "z3", "cmd": "python3-vt -m lib.main C20 (rs2smt/c20file.py)", "wall_s": round(__import__("time").time() - t0, 1)}}
+
+
+PROPS["C20"]["smt"] = _c20_smt
+PROPS["C20"]["assumptions"] = PROPS["C20"]["assumptions"] + [
+    "s20_5: FileMessageReader is evaluated from source over the in-memory file model of rs2smt/iomodel.py (read returns the bytes that exist, read_exact fails on a short read); "
+    "files of 2 (thorough: 3) records with body lengths from {1, 4, 8, 9, 12}, a prefix of 0 or 8 bytes, the end of the file or zero padding behind the records",
+]
